@@ -280,7 +280,8 @@ def getHand (s : State) (i b k : Nat) : Option Int :=
       | .ok v => some v
       | .error _ => none
 
-/-- `get_up_hand(i, b, k)` : only ValueError gives None; KeyError escapes (1983-2103) -/
+/-- `get_up_hand(i, b, k)` : KeyError and ValueError both give None, as in `get_hand` (since the F30 repair;
+    before it a KeyError - an unknown card among the up cards or on the board - escaped) (1983-2103) -/
 def getUpHand (s : State) (i b k : Nat) : Except Err (Option Int) :=
   if !getB s.statuses i then .ok none
   else match cfg.handTypes[k]? with
@@ -289,7 +290,7 @@ def getUpHand (s : State) (i b k : Nat) : Except Err (Option Int) :=
       match env.eval ht (s.upCards i) (s.getBoardCards cfg b) with
       | .ok v => .ok (some v)
       | .error .valueError => .ok none
-      | .error .keyError => .error .keyError
+      | .error .keyError => .ok none
 
 def mapExcept (f : α → Except Err β) : List α → Except Err (List β)
   | [] => .ok []
